@@ -132,6 +132,19 @@ CHECKS = {
         note='Finite-choice throughout (leverage about 1): the solver contributes the unbounded pattern-equivalence '
              'lemmas, the histories are enumerated. Trusted: z3, rx/translate.py, the three-line content model.',
         design='3 C14'),
+    'C10': dict(
+        text='Inductive step on the real CSSStyleDeclaration: the pre-state is an arbitrary entry list of up to M entries '
+             '(names that differ by case and escape, two values, both priorities) built from text; one operation '
+             '(setProperty with replace/normalize on and off, removeProperty, item assignment incl. the tuple form, '
+             'item deletion, attribute get/set/del by DOM name, cssText assignment) with menu arguments (four priority '
+             'spellings, three value kinds) runs in lock-step with a reference ordered multimap; afterwards entries, '
+             'effective value/priority, length, item, keys, iteration, membership and the reparsed cssText agree with '
+             'the model. The same for the variables block. _toDOMname/_toCSSname on a name whose characters are solver '
+             'variables (length <= 6 / 8): the round trip is the identity on every name whose parts have >= 2 letters; '
+             'every known property name (read live): attribute access by DOM name addresses the hyphenated name.',
+        note='The block harnesses are finite-choice (solver-driven enumeration, leverage about 1); the name mapping is '
+             'solver-quantified over character variables. Trusted: z3, the reference model in harness/c10.py.',
+        design='3 C10'),
     'C16': dict(
         text='Selectors are assembled from a derivation of the CSS3 selector grammar chosen by solver variables (one and '
              'two compounds; every part kind alone and all pairs - triples in the thorough tier; four spellings of every '
